@@ -177,7 +177,7 @@ def c04(run):
 
 def c05(run):
     def gen(g):
-        g.lora_rx(q(run, 400, 5000)); g.nocb(q(run, 40, 600)); g.mixed(q(run, 80, 1200))
+        g.lora_rx(q(run, 400, 5000)); g.nocb(q(run, 40, 600)); g.mixed(q(run, 80, 1200)); g.faults(q(run, 60, 800))
     return C.execute(run, gen, monitor=M.mon_expect, cone={'irq', 'lora_set_implicit_header'})
 
 def c06(run):
@@ -189,7 +189,7 @@ def c07(run):
     def gen(g):
         g.lora_race(q(run, 150, 2000))
         g.lora_rx(q(run, 100, 1500)); g.lora_tx(q(run, 100, 1500)); g.hop(q(run, 60, 600))
-        g.fsk_rx(q(run, 100, 1500)); g.fsk_tx(q(run, 100, 1500)); g.hist(q(run, 100, 1500)); g.nocb(q(run, 40, 600)); g.mixed(q(run, 60, 800))
+        g.fsk_rx(q(run, 100, 1500)); g.fsk_tx(q(run, 100, 1500)); g.hist(q(run, 100, 1500)); g.nocb(q(run, 40, 600)); g.mixed(q(run, 60, 800)); g.cad_events(q(run, 60, 800))
     return C.execute(run, gen, monitor=chain(M.mon_ack, M.mon_expect), cone={'irq'})
 
 def c08(run):
@@ -440,8 +440,8 @@ def c18(run):
             run.violation('bundled backend %s.o has writable global/static data: %s' % (name, '; '.join(bad[:4])), ['# nm ' + name + '.o'] + bad)
     def gen(g):
         g.hist(q(run, 150, 2000)); g.lora_rx(q(run, 20, 300)); g.lora_tx(q(run, 20, 300)); g.fsk_rx(q(run, 20, 300)); g.fsk_tx(q(run, 20, 300))
-        g.hop(q(run, 10, 100))
-    divs = C.execute(run, gen, monitor=M.mon_flags)
+        g.hop(q(run, 40, 400)); g.mixed(q(run, 20, 300))
+    divs = C.execute(run, gen, monitor=chain(M.mon_flags, mon_abort_generic))
     interleave(run)
     return divs
 
